@@ -1282,7 +1282,7 @@ def ids_family(run, replay=None):
         if thorough:
             words = sample(words, 60000, run.seed)
         attacks = []
-        for g in ["duplicate_rejected", "iid_counter_starts_at_one", "automatic_id_skips_taken", "remove_by_identity"]:
+        for g in ["duplicate_rejected", "iid_counter_starts_at_one", "automatic_id_skips_taken", "remove_by_identity", "ids_follow_late_characteristics"]:
             a = run.generate('IdsMC', cfgtext='CONSTANTS\n  MaxAcc = 4\n  Explicit = {0, 1, 2, 3}\n  Shapes <- ShapesDef\n  Weak = %s\nINIT Init\nNEXT Next\nINVARIANT NoAttack\nCHECK_DEADLOCK FALSE\n' % tla_set([g]), expect_violation=True)
             if not a:
                 raise ToolTrouble('no attack word for guard %s' % g)
